@@ -180,7 +180,12 @@ class Arr:
         return ewise(lambda a, b: a + b, o, self, arith="add")
 
     def __sub__(self, o):
-        return ewise(lambda a, b: a - b, self, o, arith="subtract")
+        r = ewise(lambda a, b: a - b, self, o, arith="subtract")
+        tag = getattr(o, "lse", None)
+        if tag and tag[0] == "maxof" and tag[1] is self and isinstance(r, Arr) and (tag[3] or tag[2] == 0):
+            # a - max(a, axis=k) broadcast back over axis k (keepdims, or k = 0 where trailing alignment does it): <= 0, 0 attained
+            r.lse = ("shifted", tag[2])
+        return r
 
     def __rsub__(self, o):
         return ewise(lambda a, b: a - b, o, self, arith="subtract")
@@ -251,7 +256,11 @@ class Arr:
 
     # -------------------------------------------------------------- reductions
     def sum(self, axis=None, keepdims=False, **kw):
-        return reduce_arr(self, "sum", axis, keepdims)
+        r = reduce_arr(self, "sum", axis, keepdims)
+        tag = getattr(self, "lse", None)
+        if tag and tag[0] == "expshift" and isinstance(axis, int) and axis % self.ndim == tag[1] and isinstance(r, Arr):
+            r.lse = ("safe",)        # Σ_k exp(a_k - max_k a_k) >= 1: its log cannot underflow
+        return r
 
     def mean(self, axis=None, keepdims=False, **kw):
         return reduce_arr(self, "mean", axis, keepdims)
@@ -260,7 +269,10 @@ class Arr:
         return reduce_arr(self, "minred", axis, keepdims)
 
     def max(self, axis=None, keepdims=False, **kw):
-        return reduce_arr(self, "maxred", axis, keepdims)
+        r = reduce_arr(self, "maxred", axis, keepdims)
+        if isinstance(r, Arr) and isinstance(axis, int):
+            r.lse = ("maxof", self, axis % self.ndim, bool(keepdims))     # provenance for the hand-written stable log-sum-exp idiom
+        return r
 
     def any(self, axis=None, **kw):
         cnt = reduce_arr(ewise(lambda a: T.mk_ind(C(a)), self, dtype="real"), "sum", axis, False)
